@@ -170,6 +170,9 @@ def run(c, facts, tier):
             continue
         nprim += 1
         seq_ir = {"t": "seq", "l": None, "items": [{"p": {"t": "lit", "l": None, "s": a.lit}, "keep": True}] + [{"p": r["n"], "keep": r["keep"]} for r in a.rest]}
+        if c05.never_succeeds(g, seq_ir):
+            c.ob("C06.parens", a.site, "%s directly followed by ')'" % a.lit, True, "%r is always rejected with an error" % a.lit, nontrivial=False)
+            continue
         bad = absorbs(g, seq_ir, ")")
         c.ob(
             "C06.parens",
